@@ -489,8 +489,13 @@ def truediv(x, y, out=None, out_like=None, sizing='optimal', method='raw', **kwa
         return x / y
 
     def _truediv_raw(x, y, n_frac):
-        raw_cast = _raw_cast(x, y, max(x.n_word + max(n_frac - x.n_frac + y.n_frac, 0), y.n_word))
-        return (raw_cast(x.val) * 2**(n_frac - x.n_frac + y.n_frac)) // raw_cast(y.val)
+        # floor(x * 2**n_shift / y) with integers only: fraction bits the destination does not have (n_shift < 0) are moved to the divisor
+        # (a float factor would round codes of more than 53 bits to a double before the division)
+        n_shift = n_frac - x.n_frac + y.n_frac
+        raw_cast = _raw_cast(x, y, max(x.n_word + max(n_shift, 0), y.n_word + max(-n_shift, 0)))
+        if n_shift < 0:
+            return raw_cast(x.val) // (raw_cast(y.val) * 2**(-n_shift))
+        return (raw_cast(x.val) * 2**n_shift) // raw_cast(y.val)
         # return np.floor_divide(np.multiply(x.val, precision_cast(2**(n_frac - x.n_frac + y.n_frac))), y.val)
 
     def _truediv_raw_complex(x, y, n_frac):
@@ -526,8 +531,16 @@ def mod(x, y, out=None, out_like=None, sizing='optimal', method='raw', **kwargs)
     def _mod_repr(x, y):
         return x % y
     def _mod_raw(x, y, n_frac):
-        raw_cast = _raw_cast(x, y, max(x.n_word + n_frac - x.n_frac, y.n_word + n_frac - y.n_frac))
-        return (raw_cast(x.val) * 2**(n_frac - x.n_frac)) % (raw_cast(y.val) * 2**(n_frac - y.n_frac))
+        # the remainder of the codes aligned to the finer of the two fraction lengths (integers only: no float factor when the destination has
+        # fewer fraction bits), then the whole remainder scaled to the destination
+        n_frac_xy = max(x.n_frac, y.n_frac)
+        raw_cast = _raw_cast(x, y, max(x.n_word + n_frac_xy - x.n_frac, y.n_word + n_frac_xy - y.n_frac) + 1)
+        x_raw = raw_cast(x.val) * raw_cast(2**(n_frac_xy - x.n_frac))
+        y_raw = raw_cast(y.val) * raw_cast(2**(n_frac_xy - y.n_frac))
+        if x.signed != y.signed and getattr(x_raw, 'dtype', None) is not None and x_raw.dtype != object:
+            # (numpy promotes int64 with uint64 to float64: both as signed integers; below 53 bits here, see _raw_cast)
+            x_raw, y_raw = np.asarray(x_raw).astype(np.int64), np.asarray(y_raw).astype(np.int64)
+        return utils.scale_raw(x_raw % y_raw, n_frac - n_frac_xy)
 
     if not isinstance(x, Fxp):
         x = Fxp(x)
